@@ -1,4 +1,4 @@
-\* C12 sum() over inventory values, quick: tables of up to 2 rows (3 cell values + NULL, 2 groups) x histories (one of 3 statements, then any of 15)
+\* C12 sum() over inventory values, quick: tables of up to 2 rows (3 cell values + NULL, 2 groups) x histories (one of 2 statements, then any of 15)
 CONSTANTS
   Mode = "copy"
   Scale = 1
@@ -10,5 +10,4 @@ CONSTANTS
 INIT Init
 NEXT SNext
 INVARIANTS SumTypeOK ResultInv InputsInv NoAliasInv PartialInv LawsInv
-PROPERTIES ResultsGrow
 CHECK_DEADLOCK FALSE
